@@ -227,6 +227,9 @@ pub fn judge_token(alg: u16, secret: &str, token: &str, now: u64) -> Judgement {
     }
     let Ok(payload) = serde_json::from_slice::<Value>(&p) else { return Judgement::Refuse("payload not JSON") };
     let nowf = now as f64;
+    // a numeric claim that does not admit the current time refuses the token, however a malformed claim next to it is read
+    // (ignored, or taken for a reason to refuse): only when every numeric claim admits is a non-numeric one left open
+    let mut open = false;
     for (claim, ok) in [("nbf", (|c: f64, n: f64| c <= n) as fn(f64, f64) -> bool), ("iat", |c, n| c <= n), ("exp", |c, n| n < c)] {
         if let Some(v) = payload.get(claim) {
             match v.as_f64() {
@@ -235,9 +238,12 @@ pub fn judge_token(alg: u16, secret: &str, token: &str, now: u64) -> Judgement {
                         return Judgement::Refuse("time claims");
                     }
                 }
-                None => return Judgement::Open,
+                None => open = true,
             }
         }
+    }
+    if open {
+        return Judgement::Open;
     }
     Judgement::Admit(payload)
 }
@@ -287,6 +293,12 @@ fn gen_payload(now: u64) -> (String, &'static str) {
         _ => {
             let (k, v) = t::pick(&[("exp", json!("tomorrow")), ("nbf", json!(null)), ("exp", json!([1])), ("iat", json!(true))]);
             obj.insert(k.into(), v);
+            // (wave 16) ... next to a numeric claim on another key, which refuses or admits by itself
+            if t::chance(2, 3) {
+                let others: Vec<(&str, Value)> = vec![("exp", json!(now.saturating_sub(t::pick(&[1u64, 60, 3600])))), ("nbf", json!(now + t::pick(&[1u64, 60]))), ("iat", json!(now + 60)), ("exp", json!(now + 3600)), ("nbf", json!(now.saturating_sub(5)))];
+                let (k2, v2) = t::pick(&others.into_iter().filter(|(k2, _)| *k2 != k).collect::<Vec<_>>());
+                obj.insert(k2.into(), v2);
+            }
             "non-numeric"
         }
     };
